@@ -80,7 +80,7 @@ def unrelated(q):
 
 '''
 
-EXTRA_PARAMS = ["ss", "fs", "ms", "mfs", "big", "dq", "arr", "cls_arg", "fn_arg", "meth_arg", "mod_arg", "builtin_arg"]
+EXTRA_PARAMS = ["ss", "fs", "ms", "mfs", "bs", "bfs", "sfs", "big", "dq", "arr", "cls_arg", "fn_arg", "meth_arg", "mod_arg", "builtin_arg"]
 EXTRA_VALUES = {
     "cls_arg": "int", "fn_arg": "unrelated", "meth_arg": "HOLDER.method", "mod_arg": "os", "builtin_arg": "len",
 }
@@ -117,7 +117,12 @@ def sized_values(rng, mixed: bool = True) -> Dict[str, str]:
         ms = "{" + ", ".join([repr(w) for w in rng.sample(words, rng.randint(2, 5))] + rng.sample(["1", "2.5", "None", "('t', 1)", "b'raw'", "70"], 3)) + "}"
     else:
         ms = "{" + ", ".join(repr(w) for w in rng.sample(words, 3)) + "}"
-    out = {"ss": ss, "fs": fs, "ms": ms, "mfs": "frozenset({})".format(ms), "big": big, "dq": dq, "arr": arr}
+    # sets of strings (randomised hashes) sized around the limit of 50 items: WHICH items are shown must not depend on the hash seed
+    n_big = rng.choice([49, 50, 51, 60, 120])
+    bs = "set('w%03d' % i for i in range({}))".format(n_big)
+    # a set of sets: ``<`` is the subset order, sorting neither fails nor gives one order
+    sfs = "{" + ", ".join("frozenset({})".format(set(rng.sample(words, rng.randint(1, 2)))) for _ in range(rng.randint(3, 5))) + "}" if mixed else "set()"
+    out = {"ss": ss, "fs": fs, "ms": ms, "mfs": "frozenset({})".format(ms), "sfs": sfs, "bs": bs, "bfs": "frozenset({})".format(bs), "big": big, "dq": dq, "arr": arr}
     out.update(EXTRA_VALUES)
     return out
 
@@ -150,7 +155,8 @@ def run(w) -> None:
     items = []
     for i in range(per_shard):
         env = exprs.Env(rng, {}, with_none=rng.random() < 0.3)
-        params = env.params() + EXTRA_PARAMS
+        # (a third of the functions take only a few of the extra arguments: what is listed must not depend on how many there are)
+        params = env.params() + (EXTRA_PARAMS if rng.random() < 0.67 else ["ss", "fs", "big", "cls_arg", "fn_arg", "meth_arg", "mod_arg", "builtin_arg"])
         if rng.random() < 0.25:
             expr, lam = rng.choice(TEMPLATES)
         else:
@@ -202,7 +208,7 @@ def run(w) -> None:
                     continue
                 try:
                     if not value:
-                        found = lit
+                        found = {k: v for k, v in lit.items() if k in it["params"]}
                         break
                 except Exception:  # pylint: disable=broad-except
                     continue
